@@ -34,6 +34,7 @@ func main() {
 	noEvidence := flag.Bool("no-evidence", false, "do not write the evidence file")
 	verbose := flag.Bool("v", false, "print obligations that took more than a second")
 	showLoops := flag.String("loops", "", "print the loop ordinals of a function and exit")
+	dumpFn := flag.String("dumpfn", "", "print the SSA of a function (as loaded by govc) and exit")
 	devContracts := flag.Bool("dev", false, "use /verif/contracts/verif_contracts.go even if the repo has its own copy (development)")
 	flag.Parse()
 	if s := os.Getenv("VERIF_SEED"); s != "" && *seed == 0 {
@@ -55,6 +56,12 @@ func main() {
 		os.Exit(2)
 	}
 	p.computeMods()
+	if *dumpFn != "" {
+		if fn := p.funcs[*dumpFn]; fn != nil {
+			fn.WriteTo(os.Stdout)
+		}
+		return
+	}
 	if *showLoops != "" {
 		fn := p.funcs[*showLoops]
 		if fn == nil {
